@@ -554,10 +554,19 @@ def evaluate_payload_template(input, context, template):
             # The last argument controls the seed value and is optional.
             if len(args) == 3:
                 # https://docs.python.org/3/library/random.html#random.seed
-                random.seed(args[2])
+                try:
+                    random.seed(args[2])
+                except Exception as e:
+                    raise IntrinsicFailure(
+                        "States.MathRandom failed with {}.".format(e)
+                    )
             if not is_integer(args[0]) or not is_integer(args[1]):
                 raise IntrinsicFailure(
                     "States.MathRandom failed, args[0] and args[1] must be integers."
+                )
+            if args[0] >= args[1]:
+                raise IntrinsicFailure(
+                    "States.MathRandom failed, args[0] must be less than args[1]."
                 )
 
             # States.MathRandom has inclusive start and exclusive end number
